@@ -17,6 +17,7 @@ import ast
 import os
 import sys
 
+import pynorm
 from py2coq_arith import Unsupported
 
 LOGARGS = ["order_id", "market_id", "cancel_time", "order_time", "agent_id", "is_buy", "kind", "volume", "price", "ttl"]
@@ -37,7 +38,7 @@ def translate(repo):
     a = fs[0].args
     if [x.arg for x in a.args] != ["self", "cancel"] or a.vararg or a.kwarg or a.kwonlyargs or a.defaults:
         raise Unsupported("signature of _cancel_order")
-    body = [s for s in fs[0].body if not (isinstance(s, ast.Expr) and isinstance(s.value, ast.Constant) and isinstance(s.value.value, str))]
+    body = pynorm.normalise(fs[0], cs[0], returns_none=False)
     lines, logvar, reported, returned, stamped = [], None, 0, False, False
 
     def none_test(e):
